@@ -268,7 +268,7 @@ def shape_arities(shape):
     return out
 
 
-C10_LABELS = ["S", "NP", "VP", "NP-SBJ"]
+C10_LABELS = ["S", "NP", "VP", "NP-SBJ", "NP-1", "S=2", "WHNP-SBJ-3"]     # incl. co-index / gap index decorations
 C10_WORDS = ["der", "Hund", "bellt", ",", "laut", "(x)", "Haus"]
 C10_POS = ["ART", "NN", "VB", "$,"]
 
